@@ -47,12 +47,28 @@ def Mid.den (l : List Int) : Mid → Option (List Int)
   | .one s => (srcVal l s).map fun x => [x]
   | .rep n s => (srcVal l s).map fun x => List.replicate n x
   | .list xs => some xs
+  | .self a b => if a ≤ b ∧ b ≤ l.length then some ((l.drop a).take (b - a)) else none
+
+theorem getElem?_sub (l : List Int) (a b k : Nat) (hk : k < b - a) : ((l.drop a).take (b - a))[k]? = l[a + k]? := by
+  rw [List.getElem?_take, if_pos hk, List.getElem?_drop]
+
+theorem Mid.den_self {l : List Int} {a b : Nat} {xs : List Int} (h : (Mid.self a b).den l = some xs) :
+    a ≤ b ∧ b ≤ l.length ∧ xs = (l.drop a).take (b - a) ∧ xs.length = b - a := by
+  simp only [Mid.den] at h
+  split at h
+  · next hab =>
+    simp only [Option.some.injEq] at h
+    subst h
+    refine ⟨hab.1, hab.2, rfl, ?_⟩
+    simp only [List.length_take, List.length_drop]; omega
+  · cases h
 
 theorem Mid.den_length {l : List Int} {m : Mid} {xs : List Int} (h : m.den l = some xs) : xs.length = m.count := by
   cases m with
   | one s => simp only [Mid.den, Option.map_eq_some_iff] at h; obtain ⟨x, _, rfl⟩ := h; rfl
   | rep n s => simp only [Mid.den, Option.map_eq_some_iff] at h; obtain ⟨x, _, rfl⟩ := h; simp [Mid.count]
   | list ys => simp only [Mid.den, Option.some.injEq] at h; subst h; rfl
+  | self a b => exact (Mid.den_self h).2.2.2
 
 /-- reading `v[i]` while the vector's own block is as `Owns` describes it -/
 theorem readSrc_ok {h : Heap} {v : RV} {l : List Int} (ho : Owns h v l) (hh : Heap)
@@ -83,13 +99,19 @@ theorem readSrc_nil (hh : Heap) (v : RV) {s : Src} {x : Int} (hs : srcVal [] s =
   | val y => simp only [srcVal, Option.some.injEq] at hs; subst hs; rfl
   | slot i => simp [srcVal] at hs
 
-theorem writeMid_spec (hh : Heap) (v : RV) (l : List Int)
-    (hread : ∀ s x, srcVal l s = some x → readSrc hh v s = .ok x)
+/-- the middle part is written as the list `xs` it denotes.  `hread`: value arguments can be read from `hh` as the list says;
+`hself`: for a range of the vector itself, its block in `hh` still holds the list in front of `b`, and is either a different
+block than the destination or the range ends in front of the destination -/
+theorem writeMid_spec (hh : Heap) (v : RV) (l : List Int) (m : Mid)
+    (hread : (∀ a b, m ≠ .self a b) → ∀ s x, srcVal l s = some x → readSrc hh v s = .ok x)
     (db nd : Nat) (cd : Nat → Option Int) (hdb : hh.slot db = some ⟨nd, cd⟩) (d : Nat)
-    (m : Mid) (xs : List Int) (hm : m.den l = some xs) (hd : d + xs.length ≤ nd) :
+    (hself : ∀ a b, m = .self a b → ∃ vb ns cs, v.base = some vb ∧ hh.slot vb = some ⟨ns, cs⟩ ∧ b ≤ ns ∧
+      (∀ j, j < b → cs j = l[j]?) ∧ (vb ≠ db ∨ b ≤ d))
+    (xs : List Int) (hm : m.den l = some xs) (hd : d + xs.length ≤ nd) :
     writeMid hh v db d m = .ok (hh.set db (some ⟨nd, blit cd d xs.length (fun k => xs[k]?)⟩)) := by
   cases m with
   | one s =>
+    have hread := hread (fun _ _ hx => by cases hx)
     simp only [Mid.den, Option.map_eq_some_iff] at hm
     obtain ⟨x, hx, rfl⟩ := hm
     simp only [writeMid, hread s x hx, ok_bind]
@@ -101,6 +123,7 @@ theorem writeMid_spec (hh : Heap) (v : RV) (l : List Int)
     · subst hj; simp
     · rw [if_neg hj, if_neg (by omega)]
   | rep n s =>
+    have hread := hread (fun _ _ hx => by cases hx)
     simp only [Mid.den, Option.map_eq_some_iff] at hm
     obtain ⟨x, hx, rfl⟩ := hm
     simp only [writeMid, hread s x hx, ok_bind]
@@ -115,20 +138,42 @@ theorem writeMid_spec (hh : Heap) (v : RV) (l : List Int)
     subst hm
     simp only [writeMid]
     exact copyIn_spec db nd ys hh d cd hdb hd
+  | self a b =>
+    obtain ⟨hab, hbl, rfl, hxl⟩ := Mid.den_self hm
+    obtain ⟨vb, ns, cs, hvb, hsl, hbn, hcs, hdis⟩ := hself a b rfl
+    rw [hxl] at hd ⊢
+    simp only [writeMid, RV.ptr, hvb, ok_bind]
+    have hsome : ∀ k, k < b - a → (cs (a + k)).isSome := fun k hk => by
+      rw [hcs (a + k) (by omega)]; simp; omega
+    have hcongr : blit cd d (b - a) (fun k => cs (a + k)) = blit cd d (b - a) (fun k => ((l.drop a).take (b - a))[k]?) := by
+      apply blit_congr; intro k hk; rw [hcs (a + k) (by omega), getElem?_sub l a b k hk]
+    by_cases heq : vb = db
+    · subst heq
+      have hbd : b ≤ d := by rcases hdis with hne | hbd; exact absurd rfl hne; exact hbd
+      rw [hsl] at hdb
+      simp only [Option.some.injEq, Block.mk.injEq] at hdb
+      obtain ⟨rfl, rfl⟩ := hdb
+      rw [if_neg (fun hx => hx.2 (Or.inl hbd))]
+      rw [copyFwd_disjoint vb ns (b - a) hh a d cs hsl (by omega) hd hsome, hcongr]
+    · rw [if_neg (fun hx => heq hx.1)]
+      rw [copyFwd_cross vb db ns nd cs heq (b - a) hh a d cd hsl hdb (by omega) hd hsome, hcongr]
 
 theorem resolve_spec {h : Heap} {v : RV} {l : List Int} (ho : Owns h v l) {m : Mid} {xs : List Int} (hm : m.den l = some xs) :
-    ∃ m', m.resolve h v = .ok m' ∧ m'.den [] = some xs := by
+    ∃ m', m.resolve h v = .ok m' ∧
+      ((m'.den [] = some xs ∧ ∀ a b, m' ≠ .self a b) ∨ (m' = m ∧ ∃ a b, m = .self a b)) := by
   cases m with
   | one s =>
     simp only [Mid.den, Option.map_eq_some_iff] at hm
     obtain ⟨x, hx, rfl⟩ := hm
-    exact ⟨.one (.val x), by simp [Mid.resolve, readSrc_ok ho h (fun _ _ => rfl) hx], rfl⟩
+    exact ⟨.one (.val x), by simp [Mid.resolve, readSrc_ok ho h (fun _ _ => rfl) hx], Or.inl ⟨rfl, fun _ _ hx => by cases hx⟩⟩
   | rep n s =>
     simp only [Mid.den, Option.map_eq_some_iff] at hm
     obtain ⟨x, hx, rfl⟩ := hm
-    exact ⟨.rep n (.val x), by simp [Mid.resolve, readSrc_ok ho h (fun _ _ => rfl) hx], rfl⟩
+    exact ⟨.rep n (.val x), by simp [Mid.resolve, readSrc_ok ho h (fun _ _ => rfl) hx], Or.inl ⟨rfl, fun _ _ hx => by cases hx⟩⟩
   | list ys =>
-    exact ⟨.list ys, rfl, hm⟩
+    exact ⟨.list ys, rfl, Or.inl ⟨hm, fun _ _ hx => by cases hx⟩⟩
+  | self a b =>
+    exact ⟨.self a b, rfl, Or.inr ⟨rfl, a, b, rfl⟩⟩
 
 /-- `if (!empty()) uninitialized_copy(own cells [s, s+n) → block nb at d)` -/
 theorem guardCopy_spec {h : Heap} {v : RV} {l : List Int} (ho : Owns h v l) (hh : Heap)
@@ -157,7 +202,8 @@ theorem guardCopy_spec {h : Heap} {v : RV} {l : List Int} (ho : Owns h v l) (hh 
       exact hc (s + k) (by omega)
 
 theorem insertGen_spec (g : Nat → Nat → Nat) (hg : ∀ n c, n ≤ g n c) {h : Heap} {v : RV} {l : List Int}
-    (hwf : HeapWf h) (ho : Owns h v l) (pos : Nat) (hp : pos ≤ l.length) (m : Mid) (xs : List Int) (hm : m.den l = some xs) :
+    (hwf : HeapWf h) (ho : Owns h v l) (pos : Nat) (hp : pos ≤ l.length) (m : Mid) (xs : List Int) (hm : m.den l = some xs)
+    (hsf : ∀ a b, m = .self a b → a < b ∧ b ≤ pos := by intro _ _ hx; cases hx) :
     ∃ h' v', insertGen g true h v pos m = .ok (h', v') ∧ Owns h' v' (insertAt l pos xs) ∧ Frame h v.base h' v'.base := by
   have hcount := Mid.den_length hm
   have ho' := ho
@@ -185,7 +231,22 @@ theorem insertGen_spec (g : Nat → Nat → Nat) (hg : ∀ n c, n ≤ g n c) {h 
     have hsame1 : ∀ b, v.base = some b → ((h.alloc newCap).1.set h.next
         (some ⟨newCap, blit (fun _ => none) 0 pos (fun k => l[0 + k]?)⟩)).slot b = h.slot b := by
       intro b hbase; rw [Heap.set_slot_ne _ _ _ _ (hfresh b hbase)]; exact hsame0 b hbase
-    rw [writeMid_spec _ v l (fun s x hs => readSrc_ok ho' _ hsame1 hs) h.next newCap _ (Heap.set_slot_self _ _ _) pos m xs hm (by omega)]
+    have hself1 : ∀ a b, m = .self a b → ∃ vb ns cs, v.base = some vb ∧ ((h.alloc newCap).1.set h.next
+        (some ⟨newCap, blit (fun _ => none) 0 pos (fun k => l[0 + k]?)⟩)).slot vb = some ⟨ns, cs⟩ ∧ b ≤ ns ∧
+        (∀ j, j < b → cs j = l[j]?) ∧ (vb ≠ h.next ∨ b ≤ pos) := by
+      intro a b hab
+      subst hab
+      obtain ⟨_, hbl, _, _⟩ := Mid.den_self hm
+      have hlt := (hsf a b rfl).1
+      cases hbase : v.base with
+      | none => rw [hbase] at hb; simp only at hb; omega
+      | some vb =>
+        rw [hbase] at hb
+        obtain ⟨c, hslot, hc⟩ := hb
+        exact ⟨vb, v.cap, c, rfl, by rw [hsame1 vb hbase]; exact hslot, by omega, fun j hj => hc j (by omega),
+          Or.inl (hfresh vb hbase)⟩
+    rw [writeMid_spec _ v l m (fun _ s x hs => readSrc_ok ho' _ hsame1 hs) h.next newCap _ (Heap.set_slot_self _ _ _) pos hself1 xs hm
+      (by omega)]
     simp only [ok_bind, Heap.set_set]
     have hsame2 : ∀ b, v.base = some b → ((h.alloc newCap).1.set h.next
         (some ⟨newCap, blit (blit (fun _ => none) 0 pos (fun k => l[0 + k]?)) pos xs.length (fun k => xs[k]?)⟩)).slot b = h.slot b := by
@@ -260,7 +321,6 @@ theorem insertGen_spec (g : Nat → Nat → Nat) (hg : ∀ n c, n ≤ g n c) {h 
     rw [if_neg hbig]
     obtain ⟨m', hres, hm'⟩ := resolve_spec ho' hm
     simp only [if_true, hres, ok_bind]
-    have hcount' := Mid.den_length hm'
     cases hbase : v.base with
     | none =>
       rw [hbase] at hb
@@ -294,7 +354,19 @@ theorem insertGen_spec (g : Nat → Nat → Nat) (hg : ∀ n c, n ≤ g n c) {h 
           exact hc (pos + k) (by omega)
       rw [hbw]
       simp only [ok_bind]
-      rw [writeMid_spec _ v [] (fun s x hs => readSrc_nil _ v hs) b v.cap _ (Heap.set_slot_self _ _ _) pos m' xs hm' (by omega)]
+      have hwm : writeMid (h.set b (some ⟨v.cap, blit c (pos + m.count) (v.last - pos) (fun k => l[pos + k]?)⟩)) v b pos m' =
+          .ok ((h.set b (some ⟨v.cap, blit c (pos + m.count) (v.last - pos) (fun k => l[pos + k]?)⟩)).set b
+            (some ⟨v.cap, blit (blit c (pos + m.count) (v.last - pos) (fun k => l[pos + k]?)) pos xs.length (fun k => xs[k]?)⟩)) := by
+        rcases hm' with ⟨hd', hns⟩ | ⟨rfl, a2, b2, rfl⟩
+        · exact writeMid_spec _ v [] m' (fun _ s x hs => readSrc_nil _ v hs) b v.cap _ (Heap.set_slot_self _ _ _) pos
+            (fun a2 b2 hab => absurd hab (hns a2 b2)) xs hd' (by omega)
+        · obtain ⟨_, hbp⟩ := hsf a2 b2 rfl
+          exact writeMid_spec _ v l _ (fun hns => absurd rfl (hns a2 b2)) b v.cap _ (Heap.set_slot_self _ _ _) pos
+            (fun a3 b3 heq => by
+              cases heq
+              exact ⟨b, v.cap, _, hbase, Heap.set_slot_self _ _ _, by omega,
+                fun j hj => by rw [blit_out _ _ _ _ _ (by omega)]; exact hc j (by omega), Or.inr hbp⟩) xs hm (by omega)
+      rw [hwm]
       simp only [ok_bind, pure_eq_ok, Heap.set_set]
       generalize hC : blit (blit c (pos + m.count) (v.last - pos) (fun k => l[pos + k]?)) pos xs.length (fun k => xs[k]?) = cfin
       have hcells : ∀ j, j < (insertAt l pos xs).length → cfin j = (insertAt l pos xs)[j]? := by
